@@ -285,7 +285,8 @@ def compose(seed, adversarial=False):
         attempt(s)
     target = rng.choice([2, 3, 5, 8, 12])
     tries = 0
-    w = {'lib': 6 if b.lib else 0, 'mp': 3, 'inst': 2, 'prim': 1, 'gen': rng.choice([0, 1, 2]), 'genprobe': rng.choice([0, 1, 1]), 'taut': 1 if lib_name == 'Tautology' else 0}
+    w = {'lib': 6 if b.lib else 0, 'mp': 3, 'inst': 2, 'prim': 1, 'gen': rng.choice([0, 1, 2]), 'genprobe': rng.choice([0, 1, 1]), 'taut': 1 if lib_name == 'Tautology' else 0,
+         'quantprobe': rng.choice([0, 1, 1])}
     names, weights = list(w), [w[n] for n in w]
     while len(steps) < len(ax_steps) + target and tries < 200:
         tries += 1
@@ -330,6 +331,30 @@ def compose(seed, adversarial=False):
                     tgt = rng.choice([T.mv(4, ef=(x,)), T.mv(3, ef=(x, y)), T.mv(4, sf=(X,)), T.mv(4, ef=(x,), sf=(X,)), T.evar(y), T.evar(x), T.sym(0)])
                     attempt(['inst', len(b.pool) - 1, [[3, tgt]]])
                 attempt(['gen', len(b.pool) - 1, rng.choice([x, y] + list(k.evars))])
+        elif kind == 'quantprobe':
+            # the Quantifier axiom phi0[x1/x0] -> exists x0 . phi0 instantiated with plugs that bind, shadow or mention x0 / x1,
+            # plain and under (complete and partial) notation applications whose definition binds a variable
+            x0, x1 = T.evar(0), T.evar(1)
+            v = rng.choice([0, 0, 1, 2])
+            fa = lambda t: N(nneg(T.ex(v, nneg(M0))), t)                  # forall v . t as a notation application
+            ex2 = lambda t, u: N(T.ex(v, T.imp(M0, M1)), t, u)
+            fam = [fa(T.app(T.sym(0), x0)), fa(x0), fa(x1), fa(T.app(x0, x1)), nneg(fa(x0)), ex2(x0, x1), ex2(x1, T.sym(0)), T.ex(0, x0), T.ex(1, T.app(x0, x1)),
+                   x0, x1, T.app(x0, x1), nand(x0, fa(x0)), T.mv(1, ef=(0,)), T.mv(1), T.esub(T.mv(1), 0, T.sym(0)), T.imp(x0, T.ex(0, x0)),
+                   ('N', nneg(T.ex(v, nneg(M0))), ()), fa(T.mv(1, ef=(v,)))]
+            if lib_name == 'Kore':
+                import proof_generation.proofs.kore as kl
+                from proof_generation.proofs.substitution import forall as _forall
+                S = B.to_py(T.sym(0))
+                fam += [B.from_py(kl.kore_exists(v)(S, S, B.to_py(T.app(T.sym(1), T.evar(v))))), B.from_py(kl.sorted_exists(v)(S, B.to_py(x0))),
+                        B.from_py(_forall(v)(B.to_py(T.app(T.sym(1), x0))))]
+            p_ = rng.choice(fam)
+            try:
+                if not _safe(p_) or not T.wf_deep(B.expand(p_)):
+                    continue
+            except T.Abort:
+                continue
+            if attempt(['prim', 'quant']):
+                attempt(['inst', len(b.pool) - 1, [[0, p_]]])
         elif kind == 'inst' and live:
             i = rng.choice(live)
             conc = B.from_py(b.pool[i].conc)
